@@ -61,4 +61,251 @@ theorem natOfDigits_toDigits (n : Nat) : natOfDigits (Nat.toDigits 10 n) = n := 
       rw [natOfDigits_append, ih (n / 10) (by omega), digitChar_toNat _ (Nat.mod_lt n (by decide))]
       omega
 
+/-! ### the tokenizer on digit strings -/
+
+def pnSign : List Nat → List Nat × List Nat
+  | 45 :: r => ([45], r)
+  | r => ([], r)
+def pnFrac (r1 : List Nat) : List Nat × List Nat :=
+  match r1 with
+  | 46 :: r => let (d, r') := takeWhileB isDigit r; if d.isEmpty then ([0], r1) else (46 :: d, r')
+  | r => ([], r)
+def pnExp (r2 : List Nat) : List Nat × List Nat :=
+  match r2 with
+  | e :: r => if e == 101 || e == 69 then
+      let (sg, r') := match r with | 43 :: x => ([43], x) | 45 :: x => ([45], x) | x => ([], x)
+      let (d, r'') := takeWhileB isDigit r'
+      if d.isEmpty then ([0], r2) else (e :: sg ++ d, r'')
+    else ([], r2)
+  | [] => ([], [])
+
+theorem parseNum_eq (inp : List Nat) : parseNum inp =
+    (let sr := pnSign inp
+     let ir := takeWhileB isDigit sr.2
+     if ir.1.isEmpty || (ir.1.length > 1 && ir.1.head? == some 48) then none else
+     let fr := pnFrac ir.2
+     if fr.1 == [0] then none else
+     let er := pnExp fr.2
+     if er.1 == [0] then none else
+     some ((sr.1 ++ ir.1 ++ fr.1 ++ er.1).map Char.ofNat, er.2)) := by
+  rfl
+
+theorem takeWhileB_digits (ds rest : List Nat) (hds : ∀ b ∈ ds, isDigit b = true)
+    (hrest : ∀ b, rest.head? = some b → isDigit b = false) :
+    takeWhileB isDigit (ds ++ rest) = (ds, rest) := by
+  induction ds with
+  | nil =>
+    cases rest with
+    | nil => rfl
+    | cons b r => simp [takeWhileB, hrest b rfl]
+  | cons d ds ih =>
+    have hd := hds d (by simp)
+    have := ih (fun b hb => hds b (by simp [hb]))
+    simp [takeWhileB, hd, this]
+
+theorem pnSign_neg (r : List Nat) : pnSign (45 :: r) = ([45], r) := rfl
+theorem pnSign_pos (d : Nat) (r : List Nat) (h : d ≠ 45) : pnSign (d :: r) = ([], d :: r) := by
+  unfold pnSign; split
+  · rename_i heq; simp at heq; omega
+  · rfl
+
+theorem pnFrac_none (rest : List Nat) (h : ∀ b, rest.head? = some b → b ≠ 46) : pnFrac rest = ([], rest) := by
+  unfold pnFrac; split
+  · exact absurd rfl (h 46 rfl)
+  · rfl
+
+theorem pnExp_none (rest : List Nat) (h : ∀ b, rest.head? = some b → b ≠ 101 ∧ b ≠ 69) : pnExp rest = ([], rest) := by
+  unfold pnExp; split
+  · rename_i e r
+    have := h e rfl
+    simp [this.1, this.2]
+  · rfl
+
+theorem pnExp_neg (ex rest : List Nat) (hne : ex ≠ []) (hex : ∀ b ∈ ex, isDigit b = true)
+    (hrest : ∀ b, rest.head? = some b → isDigit b = false) :
+    pnExp (101 :: 45 :: (ex ++ rest)) = (101 :: 45 :: ex, rest) := by
+  have htw := takeWhileB_digits ex rest hex hrest
+  cases ex with
+  | nil => exact absurd rfl hne
+  | cons x xs =>
+    rw [List.cons_append] at htw
+    simp [pnExp, htw]
+
+/-- the integer-part conditions of the grammar on bytes -/
+structure IpOk (ds : List Nat) : Prop where
+  ne : ds ≠ []
+  dig : ∀ b ∈ ds, isDigit b = true
+  lead : 1 < ds.length → ds.head? ≠ some 48
+
+theorem parseNum_ip (sign : Bool) (ds rest : List Nat) (h : IpOk ds)
+    (hrest : ∀ b, rest.head? = some b → isDigit b = false ∧ b ≠ 46) :
+    parseNum ((if sign then [45] else []) ++ ds ++ rest) =
+      (let er := pnExp rest
+       if er.1 == [0] then none else
+       some (((if sign then [45] else []) ++ ds ++ er.1).map Char.ofNat, er.2)) := by
+  obtain ⟨d, ds', rfl⟩ := List.exists_cons_of_ne_nil h.ne
+  have hd := h.dig d (by simp)
+  have hd45 : d ≠ 45 := by intro h; subst h; simp [isDigit] at hd
+  have htw := takeWhileB_digits (d :: ds') rest h.dig (fun b hb => (hrest b hb).1)
+  have hlead : ¬ (1 < (d :: ds').length ∧ d = 48) := by
+    intro ⟨h1, h2⟩; exact h.lead h1 (by simp [h2])
+  have hfr := pnFrac_none rest (fun b hb => (hrest b hb).2)
+  rw [parseNum_eq]
+  cases sign
+  · simp only [Bool.false_eq_true, if_false, List.nil_append, List.cons_append, pnSign_pos d _ hd45]
+    simp only [← List.cons_append, htw, hfr]
+    have h1 : ((d :: ds').isEmpty || decide ((d :: ds').length > 1) && (d :: ds').head? == some 48) = false := by
+      simp only [List.isEmpty_cons, Bool.false_or, List.head?_cons]
+      rcases Nat.lt_or_ge 1 (d :: ds').length with hl | hl
+      · have : d ≠ 48 := fun h48 => hlead ⟨hl, h48⟩
+        simp [this]
+      · have : ¬ ((d :: ds').length > 1) := by omega
+        simp only [this, decide_false, Bool.false_and]
+    simp only [h1, Bool.false_eq_true, if_false]
+    simp
+  · simp only [if_true, List.cons_append, List.nil_append, pnSign_neg]
+    simp only [← List.cons_append, htw, hfr]
+    have h1 : ((d :: ds').isEmpty || decide ((d :: ds').length > 1) && (d :: ds').head? == some 48) = false := by
+      simp only [List.isEmpty_cons, Bool.false_or, List.head?_cons]
+      rcases Nat.lt_or_ge 1 (d :: ds').length with hl | hl
+      · have : d ≠ 48 := fun h48 => hlead ⟨hl, h48⟩
+        simp [this]
+      · have : ¬ ((d :: ds').length > 1) := by omega
+        simp only [this, decide_false, Bool.false_and]
+    simp only [h1, Bool.false_eq_true, if_false]
+    simp
+
+
+theorem numCont_false {b : Nat} (h : numCont b = false) :
+    isDigit b = false ∧ b ≠ 46 ∧ b ≠ 101 ∧ b ≠ 69 ∧ b ≠ 43 ∧ b ≠ 45 := by
+  simp only [numCont, Bool.or_eq_false_iff, beq_eq_false_iff_ne] at h
+  simp [h]
+
+theorem map_ofNat_toNat (t : List Char) : (t.map Char.toNat).map Char.ofNat = t := by
+  induction t with
+  | nil => rfl
+  | cons c t ih => simp [ih]
+
+theorem DigitsOk.ipOk {ds : List Char} (h : DigitsOk ds) : IpOk (ds.map Char.toNat) := by
+  refine ⟨by simpa using h.ne, ?_, ?_⟩
+  · intro b hb
+    obtain ⟨c, hc, rfl⟩ := List.mem_map.mp hb
+    exact h.dig c hc
+  · intro hl hh
+    rw [List.length_map] at hl
+    apply h.lead hl
+    cases ds with
+    | nil => simp at hl
+    | cons c cs =>
+      simp only [List.map_cons, List.head?_cons, Option.some.injEq] at hh ⊢
+      rw [← Char.ofNat_toNat c, hh]
+
+theorem signTok_map (sign : Bool) :
+    (if sign then ['-'] else []).map Char.toNat = (if sign then [45] else []) := by
+  cases sign <;> rfl
+
+theorem tokOk_int (sign : Bool) (ds : List Char) (h : DigitsOk ds) :
+    tokOk ((if sign then ['-'] else []) ++ ds) := by
+  intro rest hrest
+  have hr : ∀ b, rest.head? = some b → isDigit b = false ∧ b ≠ 46 ∧ b ≠ 101 ∧ b ≠ 69 ∧ b ≠ 43 ∧ b ≠ 45 :=
+    fun b hb => numCont_false (hrest b hb)
+  rw [List.map_append, signTok_map,
+    parseNum_ip sign _ rest h.ipOk (fun b hb => ⟨(hr b hb).1, (hr b hb).2.1⟩),
+    pnExp_none rest (fun b hb => ⟨(hr b hb).2.2.1, (hr b hb).2.2.2.1⟩)]
+  simp only [List.append_nil]
+  rw [← signTok_map, ← List.map_append, map_ofNat_toNat]
+  rfl
+
+theorem tokOk_exp (sign : Bool) (ds ex : List Char) (h : DigitsOk ds) (hne : ex ≠ [])
+    (hex : ∀ c ∈ ex, isDigit c.toNat = true) :
+    tokOk ((if sign then ['-'] else []) ++ ds ++ ['e', '-'] ++ ex) := by
+  intro rest hrest
+  have hr : ∀ b, rest.head? = some b → isDigit b = false :=
+    fun b hb => (numCont_false (hrest b hb)).1
+  have e1 : (((if sign then ['-'] else []) ++ ds ++ ['e', '-'] ++ ex).map Char.toNat ++ rest)
+      = (if sign then [45] else []) ++ ds.map Char.toNat ++ (101 :: 45 :: (ex.map Char.toNat ++ rest)) := by
+    simp only [List.map_append, signTok_map, List.append_assoc]
+    rfl
+  rw [e1, parseNum_ip sign _ _ h.ipOk (by intro b hb; simp at hb; subst hb; decide),
+    pnExp_neg (ex.map Char.toNat) rest (by simpa using hne)
+      (by intro b hb; obtain ⟨c, hc, rfl⟩ := List.mem_map.mp hb; exact hex c hc) hr]
+  have e2 : ((if sign then [45] else []) ++ ds.map Char.toNat ++ (101 :: 45 :: ex.map Char.toNat))
+      = ((if sign then ['-'] else []) ++ ds ++ ['e', '-'] ++ ex).map Char.toNat := by
+    simp only [List.map_append, signTok_map, List.append_assoc]
+    rfl
+  simp only [e2, map_ofNat_toNat]
+  rfl
+
+
+/-! ### integer classification -/
+open Zarrs.FillMeta
+
+theorem not_special_of_digit (c : Char) (h : isDigit c.toNat = true) :
+    (c == '.' || c == 'e' || c == 'E') = false := by
+  have h46 : c ≠ '.' := by intro h'; subst h'; revert h; decide
+  have h101 : c ≠ 'e' := by intro h'; subst h'; revert h; decide
+  have h69 : c ≠ 'E' := by intro h'; subst h'; revert h; decide
+  simp [h46, h101, h69]
+
+theorem tokIsInt_digits (t : List Char) (h : ∀ c ∈ t, isDigit c.toNat = true) : tokIsInt t = true := by
+  simp only [tokIsInt, Bool.not_eq_true', List.any_eq_false]
+  intro c hc
+  simp [not_special_of_digit c (h c hc)]
+
+theorem tokIsInt_neg (t : List Char) : tokIsInt ('-' :: t) = tokIsInt t := by
+  simp [tokIsInt]
+
+theorem head_ne_minus (t : List Char) (h : ∀ c ∈ t, isDigit c.toNat = true) : t.head? ≠ some '-' := by
+  cases t with
+  | nil => simp
+  | cons c cs =>
+    have := h c (by simp)
+    intro h'; simp at h'; subst h'; revert this; decide
+
+theorem natTok_dig (v : Nat) : ∀ c ∈ natTok v, isDigit c.toNat = true := toDigits_dig v
+
+theorem asU64_natTok (v : Nat) : asU64 (natTok v) = if v < 2 ^ 64 then some v else none := by
+  have h1 := tokIsInt_digits _ (natTok_dig v)
+  have h2 := head_ne_minus _ (natTok_dig v)
+  simp only [asU64, h1, Bool.true_and, bne_iff_ne, ne_eq, h2, not_false_eq_true, if_true]
+  rw [show natOfDigits (natTok v) = v from natOfDigits_toDigits v]
+
+theorem asU64_neg (t : List Char) : asU64 ('-' :: t) = none := by
+  simp [asU64]
+
+theorem asU64_nonint (t : List Char) (h : tokIsInt t = false) : asU64 t = none := by
+  simp [asU64, h]
+theorem asI64_nonint (t : List Char) (h : tokIsInt t = false) : asI64 t = none := by
+  simp [asI64, h]
+
+theorem asI64_intTok (i : Int) :
+    asI64 (intTok i) = if -(2 ^ 63 : Int) ≤ i ∧ i < 2 ^ 63 then some i else none := by
+  unfold intTok
+  split
+  · rename_i hi
+    have h1 : tokIsInt ('-' :: natTok i.natAbs) = true := by
+      rw [tokIsInt_neg]; exact tokIsInt_digits _ (natTok_dig _)
+    simp only [asI64, h1, Bool.not_true, Bool.false_eq_true, if_false]
+    rw [show natOfDigits (natTok i.natAbs) = i.natAbs from natOfDigits_toDigits _]
+    have : i.natAbs ≠ 0 := by omega
+    simp only [beq_iff_eq, this, if_false]
+    split <;> split <;> first | rfl | omega | (simp; omega)
+  · rename_i hi
+    have h1 := tokIsInt_digits _ (natTok_dig i.natAbs)
+    have h2 := head_ne_minus _ (natTok_dig i.natAbs)
+    unfold asI64
+    simp only [h1, Bool.not_true, Bool.false_eq_true, if_false]
+    split
+    · rename_i ds heq; rw [heq] at h2; simp at h2
+    · rw [show natOfDigits (natTok i.natAbs) = i.natAbs from natOfDigits_toDigits _]
+      split <;> split <;> first | rfl | omega | (simp; omega)
+
+
+theorem tokOk_natTok (v : Nat) : tokOk (natTok v) := tokOk_int false _ (toDigits_ok v)
+
+theorem tokOk_intTok (i : Int) : tokOk (intTok i) := by
+  unfold intTok; split
+  · exact tokOk_int true _ (toDigits_ok _)
+  · exact tokOk_int false _ (toDigits_ok _)
+
 end Zarrs.NumTok
